@@ -104,7 +104,7 @@ func (s *Session) readHandshake() (handshakeData, error) {
 				return data, err
 			}
 		case strings.HasPrefix(line, ";PQ"): // Secure password challenge
-			data.SecureChallenge = line[5:]
+			data.SecureChallenge = strings.TrimSpace(strings.TrimPrefix(strings.TrimPrefix(line, ";PQ"), ":"))
 
 		case strings.HasSuffix(line, ">"): // Prompt
 			return data, nil
